@@ -16,3 +16,4 @@ Theorem c15_tuple_class_threshold : tuple_classes = 20%Z.
 Proof. exact tuple_classes_20. Qed.
 
 Print Assumptions c15_zip_update_closed_form.
+Print Assumptions c15_tuple_class_threshold.
